@@ -150,20 +150,27 @@ def A_poly(b, cfg, mode, deg, maxn, workers=4):
     return lambda: toy_replay(b, "poly", "MC_Poly", cfg, mode, workers=workers, env_extra={"DEG": str(deg), "MAXN": str(maxn)},
                               label="A:poly:%s:%s:deg%d:maxn%d" % (cfg, mode, deg, maxn))
 
+def B_polybig(b, cfg, seed, n, maxlog, threads=None, timeout=1500):
+    return lambda: trace_validate(b, "polybig", "Trace_Poly", cfg, seed, n, timeout=timeout, rec_args=["--maxlog", str(maxlog)], threads=threads,
+                                  label="B:polybig:%s:seed%d:n%d:maxlog%d%s" % (cfg, seed, n, maxlog, (":threads%d" % threads) if threads else ""))
 def plan_C08(b, tier, seed):
     if tier == "quick":
         return [A_poly(b, "f5", "arith", 3, 4, 6), A_poly(b, "f5", "unary", 4, 4), A_poly(b, "f17", "unary", 2, 8), A_poly(b, "f13", "unary", 3, 4),
-                A_poly(b, "f7", "unary", 3, 6), A_poly(b, "f7", "arith", 2, 4, 6), A_poly(b, "f12289", "polybig", 0, 130, 8)]
+                A_poly(b, "f7", "unary", 3, 6), A_poly(b, "f7", "arith", 2, 4, 6), A_poly(b, "f12289", "polybig", 0, 130, 8),
+                B_polybig(b, "bls12_381_fr", seed + 100, 60, 11), B_polybig(b, "bn384_fq", seed + 100, 40, 10)]
     return [A_poly(b, "f5", "arith", 4, 4, 8), A_poly(b, "f7", "arith", 3, 4, 8), A_poly(b, "f17", "arith", 2, 4, 8), A_poly(b, "f97", "arith", 2, 4, 8),
             A_poly(b, "f5", "unary", 5, 4), A_poly(b, "f17", "unary", 3, 16, 8), A_poly(b, "f97", "unary", 2, 12, 8), A_poly(b, "f13", "unary", 4, 4),
-            A_poly(b, "f7", "unary", 4, 6), A_poly(b, "f37", "unary", 2, 12, 8), A_poly(b, "f12289", "polybig", 0, 1030, 8), A_poly(b, "f40961", "polybig", 0, 300, 8)]
+            A_poly(b, "f7", "unary", 4, 6), A_poly(b, "f37", "unary", 2, 12, 8), A_poly(b, "f12289", "polybig", 0, 1030, 8), A_poly(b, "f40961", "polybig", 0, 300, 8)] + \
+           [B_polybig(b, c, seed + 100 + k, 250, 13, timeout=3000) for c in ("bls12_381_fr", "bn384_fq", "mnt4_753_fr", "secp256k1_fr") for k in range(2)]
 
 def plan_C07(b, tier, seed):
     if tier == "quick":
         return [A_poly(b, "f17", "domain", 0, 16), A_poly(b, "f97", "domain", 0, 16), A_poly(b, "f13", "domain", 0, 12), A_poly(b, "f37", "domain", 0, 12),
-                A_poly(b, "f257", "domain", 0, 32, 8), A_poly(b, "f101", "domain", 0, 25)]
+                A_poly(b, "f257", "domain", 0, 32, 8), A_poly(b, "f101", "domain", 0, 25),
+                B_polybig(b, "bls12_381_fr", seed, 70, 12), B_polybig(b, "bn384_fq", seed, 50, 10), B_polybig(b, "secp256k1_fr", seed, 40, 8), B_polybig(b, "fp128_fq", seed, 40, 11)]
     return [A_poly(b, c, "domain", 0, n, 8) for (c, n) in [("f17", 16), ("f97", 96), ("f13", 12), ("f37", 36), ("f257", 128), ("f101", 100),
-                                                            ("f193", 64), ("f577", 64), ("f12289", 64), ("f18433", 48), ("f40961", 40)]]
+                                                            ("f193", 64), ("f577", 64), ("f12289", 64), ("f18433", 48), ("f40961", 40)]] + \
+           [B_polybig(b, c, seed + k, 250, 13, timeout=3000) for c in ("bls12_381_fr", "bn384_fq", "mnt4_753_fr", "secp256k1_fr", "fp128_fq") for k in range(2)]
 
 def plan_C11(b, tier, seed):
     t = []
@@ -219,8 +226,10 @@ def A_msm(b, cfg, mode, length, workers=6):
 def plan_C05(b, tier, seed):
     if tier == "quick":
         return [A_msm(b, "sw13_1_4", "acc", 4), A_msm(b, "te13_1_7", "acc", 4), A_msm(b, "sw13_0_2", "acc", 3),
-                A_msm(b, "sw13_1_4", "oneshot", 0), A_msm(b, "te13_1_7", "oneshot", 0), A_msm(b, "sw13_0_2", "oneshot", 0), A_msm(b, "sw_f7_2_a0", "oneshot", 0)]
-    return [A_msm(b, c, "acc", 5, 8) for c in ("sw13_1_4", "te13_1_7", "sw13_0_2", "sw19_0_8", "te29_1_3")] + \
+                A_msm(b, "sw13_1_4", "oneshot", 0), A_msm(b, "te13_1_7", "oneshot", 0), A_msm(b, "sw13_0_2", "oneshot", 0), A_msm(b, "sw_f7_2_a0", "oneshot", 0)] + \
+               [B_curve(b, c, seed, 45, "msm") for c in BIG_CURVES]
+    return [B_curve(b, c, seed + k, 300, "msm", 3000) for c in BIG_CURVES for k in range(2)] + \
+           [A_msm(b, c, "acc", 5, 8) for c in ("sw13_1_4", "te13_1_7", "sw13_0_2", "sw19_0_8", "te29_1_3")] + \
            [A_msm(b, c, "oneshot", 0, 8) for c in SW_TOY + TE_TOY + ["sw_f7_2_a0", "sw_f7_2_a1"]]
 
 def A_mle(b, cfg, mode, nv, workers=4):
@@ -283,6 +292,8 @@ def plan_C14(b, tier, seed):
         t.append((lambda thr=thr, k=k: trace_validate(b, "pairing", "Trace_Pairing", "bls12_381", seed + k, 120, threads=thr, label="B:pairing:bls12_381:threads%d" % thr)))
         t.append((lambda thr=thr, k=k: trace_validate(b, "field", "Trace_Field", "bls12_381_fr", seed + k, 800, threads=thr, label="B:field:bls12_381_fr:threads%d" % thr)))
         t.append((lambda thr=thr, k=k: trace_validate(b, "curve", "Trace_Curve", "bls12_381_g1", seed + k, 300, rec_args=["--profile", "group"], threads=thr, label="B:curve:bls12_381_g1:threads%d" % thr)))
+        t.append(B_polybig(b, ["bls12_381_fr", "bn384_fq"][k % 2], seed + k, 50, 12, threads=thr))
+        t.append((lambda thr=thr, k=k: trace_validate(b, "curve", "Trace_Curve", ["bls12_381_g1", "ed_on_bls12_381", "bls12_381_g2"][k % 3], seed + k, 40, rec_args=["--profile", "msm"], threads=thr, label="B:curve:msm:threads%d" % thr)))
     return t
 FEATURES = {"C14": ("parallel",)}
 
@@ -309,13 +320,13 @@ RULES = {
  "C20": "A: for 8 moduli of the zoo (1, 2, 4, 6, 13 limbs; with / without spare bit; Mersenne 2^127-1, 2^255-19, Goldilocks), derived and hand-written configuration: TLC generates every literal sign x {decimal, 0x, 0X, 0o, 0O, 0b, 0B} x {0, 2 leading zeros} x 21 values (0, 1, 2, 10, 15, 16, 255, 2^32, 2^64-1, 2^64, 2^64+1, (p-1)/2, p-2, p-1, p, p+1, 2p, 2p+1, 2^(64N-1), (2^64N)/3, 2^(64N)-1) with the value it must denote; all ~800 literals per modulus are compiled as MontFp! / BigInt! constants and the constant's raw Montgomery limbs are compared with the run-time element of the same value; plus the derive macro's limb count, modulus limbs, R, R2, INV, bit size, two-adicity, generator and 2-adic root against their definitions",
  "C18": "A: a zoo of 44 composite types (all integer widths and signs, usize, bool, Option, Vec / VecDeque / LinkedList incl. nested, tuples, arrays, String, BigUint, BTreeSet, BTreeMap, Rc / Arc / Cow, the four derive shapes named / tuple / nested-tuple / generic, and the mode-pinning wrappers around the only mode-dependent leaf - points of a toy curve - alone, inside Vec and inside tuples): every value built from tiny leaf domains up to length 2 x both ambient modes: bytes, advertised size, exact-size buffer; a structured set of ~4700 byte strings per type (every payload of <= 3 bytes over an alphabet with ASCII, valid 2-byte UTF-8, lone continuation byte, 0xFF; behind every length prefix in {0..4, 2^16, 2^40, 2^62, 2^64-1}): error vs value, decoded value, bytes consumed; panics and aborts are violations",
  "C17": "A: MleMachine over toy fields: ALL tables for 0..3 variables over F_3 (6561 tables), 0..2 over F_5, 0..1 over F_7; all ordered pairs of tables x add/sub/scaled add/eq/concat; every table x evaluation at EVERY point of F_p^n, fix_variables for every partial assignment of every length, every relabel window (also those touching the last variable), neg, scaling by {0,1,2,-1}, index, to_evaluations; every operation in the dense AND the sparse form; multivariate sparse polynomials: every term list of <= 2 terms over 2 variables (duplicate monomials, zero coefficients, unordered variables) x every point for evaluate / neg and selected points for add / sub",
- "C05": "A: MsmMachine over Z_r explored by TLC with the conservation invariant (result + buffered = everything added) on every state; EVERY history New(kind, cap); Add^n; Finalize with n <= LEN over bases {O, G, 2G, -G} (repeated and identity bases) x scalars {0, 1, r-1} x every capacity 0..LEN+1 x {Chunked, HashMap} is replayed on the real accumulators over toy curves; every pair of base/scalar vectors of length <= 3 (mismatched lengths included) and patterned vectors of length 31, 32, 33, 100 through msm (checked), msm_unchecked, msm_bigint, msm_chunks and - through the verification hook - both private bucket methods (the plain one is otherwise unreachable)",
+ "C05": "A: MsmMachine over Z_r explored by TLC with the conservation invariant (result + buffered = everything added) on every state; EVERY history New(kind, cap); Add^n; Finalize with n <= LEN over bases {O, G, 2G, -G} (repeated and identity bases) x scalars {0, 1, r-1} x every capacity 0..LEN+1 x {Chunked, HashMap} is replayed on the real accumulators over toy curves; every pair of base/scalar vectors of length <= 3 (mismatched lengths included) and patterned vectors of length 31, 32, 33, 100 through msm (checked), msm_unchecked, msm_bigint, msm_chunks and - through the verification hook - both private bucket methods (the plain one is otherwise unreachable); B: full-size MSMs of 0..1025 terms on BLS12-381 G1/G2, secp256k1, MNT4-753 G1, BN384, Jubjub through all six entry points, validated by TLC as (sum k_i a_i) P",
  "C09": "A: for toy curves over fields with 4, 6, 7 and 8-bit moduli (so 4, 2, 1, 0 spare bits in the top byte; 2-bit and 1-bit flags that fit exactly or spill into an extra byte) and over F_{7^2}: every field element x every flag kind x every flag value: bytes and advertised size; EVERY byte string of the encoded length, one shorter and one longer (<= 2 bytes): decoding outcome, decoded value, flag and bytes consumed (TLC proves Decode.Encode = id and, for field elements, Encode.Decode = id on the specification); every curve point x compressed/uncompressed through affine and rescaled projective serializers and an exact-size buffer",
  "C10": "A: EVERY byte string of length 0..size (<= 2 bytes) offered as compressed / uncompressed encoding with validation on and off, on toy curves with cofactor 1, 2, 4, 8, 18, 20, 36 (so most decodable points lie outside the subgroup) and x-coordinates without a root: error vs Ok, the decoded point, panics; with validation the returned point must be on the curve and in the prime-order subgroup",
  "C11": "A: EVERY element of toy fields (p = 3 mod 4: 7,11,31; two-adicity 2..8: 13,17,97,193,257; F_{p^2}, F_{p^3} with configured constants, F_{p^4}, F_{p^6} = 2 over 3) through sqrt / sqrt_in_place (relation: a root is returned exactly for squares and squares back), legendre (Euler criterion by norm descent, checked by TLC against the existence of a root); exhaustive traces over F_12289 and F_40961 (two-adicity 12, 13); B: shipped fields and the zoo (two-adicity up to 47; Goldilocks 32) with squares, non-squares and boundary values",
  "C19": "A: eq / cmp / hash-consistency / is_zero / is_one on all pairs of toy field and tower elements, of boundary big integers, of curve points in ALL pairs of projective representatives (equality and hashing must not depend on the representative; affine vs projective), of polynomials in dense and sparse form; B: the same queries inside full-size traces where equal values arise along different operation sequences",
  "C08": "A: PolyMachine over toy prime fields: all ordered pairs of polynomials of degree < DEG x add/sub/mul/div/scaled add/eq in every dense/sparse mix and API variant (operators by value/reference, assign forms, naive and FFT products, the four divide_with_q_and_r mixes); every polynomial x scaling, evaluation, canonical-form conversions, vanishing-polynomial mul/div and evaluate_over_domain / interpolate over every small domain and coset (radix-2, mixed-radix, general), including polynomials longer than the domain; patterned polynomials of 15..130 coefficients (thorough 1030) x evaluation, linear operations, products and quotients with small and large operands. Results are compared as STORED coefficient vectors, so non-canonical results are visible. non-trivial = register changed or a non-zero value returned",
- "C07": "A: every constructible domain up to MAXN over fields with two-adicity 2..13 and small subgroups 3^k / 5^k: construction for every request 0..MAXN+1 and around the largest subgroup (all three kinds; minimal admissible size or none), generator order, element(i) for all i, elements(), FFT of every unit vector / all-ones / dense vector for EVERY input length 0..n, IFFT, vanishing polynomial and all Lagrange coefficients at every field element (p <= 31) or at in-domain and off-domain samples; four coset offsets",
+ "C07": "A: every constructible domain up to MAXN over fields with two-adicity 2..13 and small subgroups 3^k / 5^k: construction for every request 0..MAXN+1 and around the largest subgroup (all three kinds; minimal admissible size or none), generator order, element(i) for all i, elements(), FFT of every unit vector / all-ones / dense vector for EVERY input length 0..n, IFFT, vanishing polynomial and all Lagrange coefficients at every field element (p <= 31) or at in-domain and off-domain samples; four coset offsets; B: full-size domains (Trace_Poly): construction requests around every power of two up to 2^12 (thorough 2^13) and mixed sizes 2^a 3^b over BLS12-381 Fr, BN384 Fq (3^2), secp256k1 Fr (two-adicity 6, falls back to mixed radix), Fp128: FFT / IFFT / coset FFT of random and short vectors, evaluate_over_domain, interpolate, element tables, vanishing polynomials and all Lagrange coefficients (on and off the domain), decided by DftIdentity / LagrangeClosed at a random 250-bit point",
  "C03": "A: every transition of CurveMachine over toy curves (all ordered pairs of ALL points of the curve - prime-order subgroup for incomplete Edwards curves - x add/sub/eq/sum/batch-normalise; all points x double/negate/conversions), replayed through every projective rescaling of the operands (all of F_q^* for q = 13, 12 spread values otherwise) and every API variant (proj+proj, mixed, affine+affine, iterator sums). B: seeded programs on shipped curves with randomly rescaled registers; raw Jacobian / extended coordinates decoded by the specification. non-trivial = abstract register changed or a value returned",
  "C04": "A: every (k, P) with k in 0..2r+2 and P any point of a toy curve, through mul_bigint (with leading zero limbs), affine mul_bigint, bit streams (with/without leading zeros), scalar-field multiplication, w-NAF w=2..6 with fresh / precomputed / too-short tables, batch_mul for 1,2,31,32,33 scalars and three table sizings. B: boundary scalars (0,1,r-1,r,r+1,2^64-1,2^64N-1,random) on shipped curves, spec computes k.P by its own double-and-add",
  "C12": "A: all points of toy curves with cofactor 1,2,3,4,6,8 (so mostly outside the subgroup): subgroup test vs r.P = O, clear_cofactor vs h.P, mul_by_cofactor, mul_by_cofactor_inv on the subgroup. B: shipped curves with points from arbitrary coordinates; clear_cofactor vs the standardised effective cofactor (BLS12-381 G1: 1-x, G2: h2(3x^2-3)), endomorphism-based subgroup tests vs the definition",
@@ -362,8 +373,8 @@ META = {
          "note": "Values are small (length <= 2); UTF-8 validity is modelled for 1- and 2-byte sequences only. Allocation behaviour is observed through the process (an abort on an oversized prefix kills the harness and is reported with the offending input)."},
  "C17": {"text": "The abstract value is the table on the Boolean hypercube; evaluation, fixing, relabelling, concatenation and arithmetic are defined on tables from the eq-polynomial sum, and TLC checks on the specification that the table is the restriction of the extension and that fix/relabel commute with evaluation. All transitions of the toy models are replayed on DenseMultilinearExtension and SparseMultilinearExtension (abstracted through the stored map, so to_evaluations itself is under test) and on the multivariate SparsePolynomial.",
          "note": "Toy fields only (the code is generic); up to 3 variables."},
- "C05": {"text": "The accumulators are modelled as state machines with the flush rule of the code and a history variable; TLC checks conservation and 'finalize returns the history' in every reachable state and every complete behaviour is replayed on ChunkedPippenger / HashMapPippenger of real toy curves (short Weierstrass, twisted Edwards, base field F_{p^2}). One-shot MSMs are defined as sum k_i d_i in Z_r and compared with the group element (sum) * G.",
-         "note": "Bases are multiples of the generator with known discrete logarithms. Scalars are canonical field elements (msm_bigint documents that precondition). Full-size MSM (window sizes above 3, lengths 2^10+) is exercised by C14's parallel/serial comparison against the same definition."},
+ "C05": {"text": "The accumulators are modelled as state machines with the flush rule of the code and a history variable; TLC checks conservation and 'finalize returns the history' in every reachable state and every complete behaviour is replayed on ChunkedPippenger / HashMapPippenger of real toy curves (short Weierstrass, twisted Edwards, base field F_{p^2}). One-shot MSMs are defined as sum k_i d_i in Z_r and compared with the group element (sum) * G. Full size: CurveMachine.MsmLin - bases are the multiples 0..15 of a register, so an MSM of any length costs the specification one scalar multiplication - validates traces of msm / msm_unchecked / msm_bigint / msm_chunks and both bucket methods on shipped curves for lengths 0..1025 (every window size from 3 up) with boundary scalars (0, 1, r-1, 2^j, 2^j - 1, all maximal).",
+         "note": "Bases are multiples of one point with known small logarithms. Scalars are canonical field elements (msm_bigint documents that precondition)."},
  "C09": {"text": "Codec defines the encodings as total functions between values and byte sequences (size formula, flag placement, sign conventions from the field's order); TLC checks the round-trip and uniqueness theorems on the specification and emits the expected outcome for every value and every byte string of toy configurations; the harness requires the real serializers (all entry points, affine and projective, exact-size buffers) to produce exactly those bytes, sizes, values, flags and consumed lengths.",
          "note": "Exhaustive over byte strings up to 2 bytes (toy moduli up to 8 bits; F_{7^2}); full-size fields and the ZCash-format override of curves/bls12_381 are covered by trace validation when vh-curves is built (see DESIGN)."},
  "C10": {"text": "Deserialize is specified as a total function: error, or the point the bytes denote, and with validation only points of the prime-order subgroup (defined as r.P = O on the specification's own group law). TLC enumerates every byte string and predicts the outcome; panics or reading past the advertised size are violations.",
@@ -375,7 +386,7 @@ META = {
  "C08": {"text": "PolyMachine defines every operator on canonical coefficient sequences over Z_p from first principles (schoolbook product, Euclidean division, Horner evaluation, DFT as a sum, interpolation as the inverse DFT sum); TLC checks ring laws, the division identity and interpolation-inverts-evaluation on the specification itself and emits every transition of the toy models, which the harness replays on DensePolynomial / SparsePolynomial / DenseOrSparsePolynomial / Evaluations in every representation mix.",
          "note": "Toy fields only for the exhaustive part (the polynomial code is generic over the field; field arithmetic itself is C01). SparsePolynomial::from_coefficients_vec is only fed distinct degrees with non-zero coefficients (it documents that it does not normalise)."},
  "C07": {"text": "A domain is specified by its defining properties: minimal admissible size for its kind (or none), generator of exactly that order derived from the configured roots, element(i) = h g^i, FFT = evaluation at the elements in order (as a sum), IFFT its inverse, vanishing polynomial X^n - h^n, Lagrange coefficients from the product formula (also at domain points). TLC checks Lagrange/vanishing theorems on the specification and emits every query; the harness replays them on Radix2 / MixedRadix / General domains.",
-         "note": "Sizes up to 128 (toy fields up to 40961); the large-size parallel/compaction code paths are exercised by C14."},
+         "note": "Exhaustive for sizes up to 128 (toy fields up to 40961). Full-size domains are decided by relations that characterise the transform (a wrong result survives for at most n of > 2^250 points z); MC_Poly proves on every toy domain that these relations are theorems of the definitions and that they reject a perturbed vector."},
  "C03": {"text": "TLC enumerates every point of each toy curve by brute force, checks that the textbook affine law of the specification is a group law on it (closure, commutativity, associativity, identity, inverse, order h*r) and that the catalogue entry is right, and emits every transition; the real Projective/Affine code is run on every projective representative of the operands. Full-size: traces of shipped curves with raw coordinates validated by the specification's abstraction functions (on-curve and T*Z = X*Y invariants included).",
          "note": "Toy curves cover a=0 / a!=0, cofactors 1..8, 2-torsion, base fields F_p, F_{p^2}, F_{p^3}; complete and incomplete Edwards curves. The abstraction function in the harness uses the library's field inversion (checked by C01/C02)."},
  "C04": {"text": "CurveMachine.Mul is defined as k.P by double-and-add on the specification's own law; TLC explores all (k,P) for k up to 2r+2 on toy curves and the harness requires every multiplication path to produce that point. Full-size traces use boundary scalars including values at and above r and 2^(64N)-1.",
